@@ -28,12 +28,19 @@ def main(c):
     base = vlib.scratch_dir('c14')
     try:
         vlib.run_shards(c, exe, [['crc', c.seed, 2 if thorough else 1]], cpu_limit=3000)
+        # fresh processes in which 2..16 threads make the first CRC call of the process at the same time
+        vlib.run_shards(c, exe, [['crcfirst', c.seed * 100 + i, 2 + i % 15] for i in range(400 if thorough else 60)], cpu_limit=600)
         # small carquet-written files, all codecs, several pages per chunk, several columns
         kd = os.path.join(base, 'k'); w = os.path.join(base, 'w'); os.makedirs(kd); os.makedirs(w)
         c2 = vlib.Check('C14', 'fault_enumeration', ['--tier', c.tier])
         vlib.run_shards(c2, exe1, [['gen', c.seed * 1000 + 900, 0, w, kd]], cpu_limit=3000)
+        # a second set written with the other writer switches flipped (no statistics, page index, bloom filters): page checksums do not depend on them
+        kd2 = os.path.join(base, 'k2'); w2 = os.path.join(base, 'w2'); os.makedirs(kd2); os.makedirs(w2)
+        vlib.run_shards(c2, exe1, [['gen', c.seed * 1000 + 901, 0, w2, kd2]], env={'CQV_WRITER_OPTS': 'nostats,index,bloom'}, cpu_limit=3000)
+        for fn in os.listdir(kd2):
+            os.rename(os.path.join(kd2, fn), os.path.join(kd, 'alt' + fn))
         cands = []
-        for fn in sorted(os.listdir(kd), key=lambda x: int(x.split('_')[1].split('.')[0]) if x.endswith('.parquet') else 0):
+        for fn in sorted(os.listdir(kd), key=lambda x: (int(x.split('_')[1].split('.')[0]), x) if x.endswith('.parquet') else (0, x)):
             if not fn.endswith('.parquet'):
                 continue
             path = os.path.join(kd, fn)
@@ -53,7 +60,9 @@ def main(c):
         for cd in (0, 1, 2, 5, 6):
             mine = [x for x in cands if x[5] == cd]
             mine.sort(key=lambda x: (-(x[3] >= 2 and x[4] >= 2), -(x[3] >= 1), x[2]))
-            chosen += mine[:quota]
+            alt = [x for x in mine if os.path.basename(x[0]).startswith('alt')]; std = [x for x in mine if not os.path.basename(x[0]).startswith('alt')]
+            chosen += std[:quota - quota // 2] + alt[:quota // 2]
+            c.count('files_written_with_other_writer_switches', len(alt[:quota // 2]))
         shards = []
         for i, (path, ranges, body, ng1, ncols, codec) in enumerate(chosen):
             rf = os.path.join(base, 'r%d.txt' % i); td = os.path.join(base, 't%d' % i); os.makedirs(td)
